@@ -13,31 +13,526 @@ class LawfulPOrd (α : Type) [POrd α] : Prop where
   trans : ∀ a b c : α, POrd.lt a b = true → POrd.lt b c = true → POrd.lt a c = true
   total : ∀ a b : α, a ≠ b → POrd.lt a b = true ∨ POrd.lt b a = true
 
-instance : LawfulPOrd Int := sorry
-instance : LawfulPOrd Char := sorry
-instance : LawfulPOrd Bool := sorry
-instance {α} [POrd α] [LawfulPOrd α] : LawfulPOrd (List α) := sorry
-instance {α β} [POrd α] [POrd β] [LawfulPOrd α] [LawfulPOrd β] : LawfulPOrd (α × β) := sorry
-instance : LawfulPOrd Sc := sorry
-instance : LawfulPOrd Val := sorry
-
+/-! ### consequences of the axioms -/
+namespace LawfulPOrd
 variable {α : Type} [POrd α] [LawfulPOrd α]
 
+theorem asymm {a b : α} (h : POrd.lt a b = true) : POrd.lt b a = false := by
+  cases h' : POrd.lt b a with
+  | false => rfl
+  | true => have := trans a b a h h'; rw [irrefl] at this; exact absurd this (by simp)
+
+theorem ne_of_lt {a b : α} (h : POrd.lt a b = true) : a ≠ b := by
+  rintro rfl; rw [irrefl] at h; exact absurd h (by simp)
+
+/-- incomparable elements are equal -/
+theorem eq_of_not_lt {a b : α} (h₁ : POrd.lt a b = false) (h₂ : POrd.lt b a = false) : a = b := by
+  by_contra hne
+  rcases total a b hne with h | h
+  · rw [h₁] at h; exact absurd h (by simp)
+  · rw [h₂] at h; exact absurd h (by simp)
+
+/-- trichotomy -/
+theorem lt_trichotomy (a b : α) : POrd.lt a b = true ∨ a = b ∨ POrd.lt b a = true := by
+  by_cases h : a = b
+  · exact .inr (.inl h)
+  · rcases total a b h with h | h
+    · exact .inl h
+    · exact .inr (.inr h)
+
+theorem not_lt_iff {a b : α} : POrd.lt a b = false ↔ (a = b ∨ POrd.lt b a = true) := by
+  constructor
+  · intro h
+    rcases lt_trichotomy a b with h' | h' | h'
+    · rw [h] at h'; exact absurd h' (by simp)
+    · exact .inl h'
+    · exact .inr h'
+  · rintro (rfl | h)
+    · exact irrefl a
+    · exact asymm h
+
+/-- `a ≤ b ≤ c → a ≤ c` for `x ≤ y := ¬ y < x` -/
+theorem le_trans {a b c : α} (h₁ : POrd.lt b a = false) (h₂ : POrd.lt c b = false) : POrd.lt c a = false := by
+  rcases not_lt_iff.1 h₁ with rfl | h₁'
+  · exact h₂
+  · rcases not_lt_iff.1 h₂ with rfl | h₂'
+    · exact h₁
+    · exact asymm (trans a b c h₁' h₂')
+
+theorem lt_of_lt_of_le {a b c : α} (h₁ : POrd.lt a b = true) (h₂ : POrd.lt c b = false) : POrd.lt a c = true := by
+  rcases not_lt_iff.1 h₂ with rfl | h₂'
+  · exact h₁
+  · exact trans a b c h₁ h₂'
+
+theorem lt_of_le_of_lt {a b c : α} (h₁ : POrd.lt b a = false) (h₂ : POrd.lt b c = true) : POrd.lt a c = true := by
+  rcases not_lt_iff.1 h₁ with rfl | h₁'
+  · exact h₂
+  · exact trans a b c h₁' h₂
+
+end LawfulPOrd
+
+instance : LawfulPOrd Int where
+  irrefl a := by simp [POrd.lt]
+  trans a b c := by simp only [POrd.lt, decide_eq_true_eq]; omega
+  total a b h := by simp only [POrd.lt, decide_eq_true_eq]; omega
+
+instance : LawfulPOrd Nat where
+  irrefl a := by simp [POrd.lt]
+  trans a b c := by simp only [POrd.lt, decide_eq_true_eq]; omega
+  total a b h := by simp only [POrd.lt, decide_eq_true_eq]; omega
+
+instance : LawfulPOrd Char where
+  irrefl a := by simp [POrd.lt]
+  trans a b c := by
+    simp only [POrd.lt, decide_eq_true_eq, UInt32.lt_iff_toNat_lt]; omega
+  total a b h := by
+    have h' : a.val.toNat ≠ b.val.toNat := fun e => h (Char.ext (UInt32.toNat_inj.1 e))
+    simp only [POrd.lt, decide_eq_true_eq, UInt32.lt_iff_toNat_lt]; omega
+
+instance : LawfulPOrd Bool where
+  irrefl a := by cases a <;> rfl
+  trans a b c := by cases a <;> cases b <;> cases c <;> simp [POrd.lt]
+  total a b h := by cases a <;> cases b <;> simp_all [POrd.lt]
+
+section prod_list
+variable {α β : Type} [POrd α] [POrd β] [LawfulPOrd α] [LawfulPOrd β]
+
+theorem lexLt_cons_iff (a b : α) (as bs : List α) :
+    lexLt POrd.lt (a :: as) (b :: bs) = true ↔ (POrd.lt a b = true ∨ (a = b ∧ lexLt POrd.lt as bs = true)) := by
+  rw [lexLt]
+  rcases LawfulPOrd.lt_trichotomy a b with h | rfl | h
+  · simp [h]
+  · simp [LawfulPOrd.irrefl]
+  · have h' := LawfulPOrd.asymm h
+    have hne : a ≠ b := fun e => LawfulPOrd.ne_of_lt h e.symm
+    simp [h, h', hne]
+
+theorem lexLt_irrefl (l : List α) : lexLt POrd.lt l l = false := by
+  induction l with
+  | nil => rfl
+  | cons a as ih =>
+    cases h : lexLt POrd.lt (a :: as) (a :: as) with
+    | false => rfl
+    | true =>
+      rcases (lexLt_cons_iff a a as as).1 h with h' | ⟨_, h'⟩
+      · rw [LawfulPOrd.irrefl] at h'; exact absurd h' (by simp)
+      · rw [ih] at h'; exact absurd h' (by simp)
+
+theorem lexLt_trans (x y z : List α) (h₁ : lexLt POrd.lt x y = true) (h₂ : lexLt POrd.lt y z = true) :
+    lexLt POrd.lt x z = true := by
+  induction x generalizing y z with
+  | nil =>
+    cases y with
+    | nil => simp [lexLt] at h₁
+    | cons b bs =>
+      cases z with
+      | nil => simp [lexLt] at h₂
+      | cons c cs => simp [lexLt]
+  | cons a as ih =>
+    cases y with
+    | nil => simp [lexLt] at h₁
+    | cons b bs =>
+      cases z with
+      | nil => simp [lexLt] at h₂
+      | cons c cs =>
+        rw [lexLt_cons_iff] at h₁ h₂ ⊢
+        rcases h₁ with h₁ | ⟨rfl, h₁⟩
+        · rcases h₂ with h₂ | ⟨rfl, h₂⟩
+          · exact .inl (LawfulPOrd.trans a b c h₁ h₂)
+          · exact .inl h₁
+        · rcases h₂ with h₂ | ⟨rfl, h₂⟩
+          · exact .inl h₂
+          · exact .inr ⟨rfl, ih bs cs h₁ h₂⟩
+
+theorem lexLt_total (x y : List α) (h : x ≠ y) : lexLt POrd.lt x y = true ∨ lexLt POrd.lt y x = true := by
+  induction x generalizing y with
+  | nil =>
+    cases y with
+    | nil => exact absurd rfl h
+    | cons b bs => simp [lexLt]
+  | cons a as ih =>
+    cases y with
+    | nil => simp [lexLt]
+    | cons b bs =>
+      rw [lexLt_cons_iff, lexLt_cons_iff]
+      rcases LawfulPOrd.lt_trichotomy a b with hab | rfl | hab
+      · exact .inl (.inl hab)
+      · have : as ≠ bs := fun e => h (by rw [e])
+        rcases ih bs this with h' | h'
+        · exact .inl (.inr ⟨rfl, h'⟩)
+        · exact .inr (.inr ⟨rfl, h'⟩)
+      · exact .inr (.inl hab)
+
+instance : LawfulPOrd (List α) where
+  irrefl := lexLt_irrefl
+  trans := lexLt_trans
+  total := lexLt_total
+
+omit [LawfulPOrd α] in
+theorem lt_list_def (x y : List α) : POrd.lt x y = lexLt POrd.lt x y := rfl
+
+omit [LawfulPOrd β] in
+theorem lt_prod_iff (p q : α × β) :
+    POrd.lt p q = true ↔ (POrd.lt p.1 q.1 = true ∨ (p.1 = q.1 ∧ POrd.lt p.2 q.2 = true)) := by
+  obtain ⟨a, a'⟩ := p
+  obtain ⟨b, b'⟩ := q
+  show (if POrd.lt a b then true else if POrd.lt b a then false else POrd.lt a' b') = true ↔ _
+  rcases LawfulPOrd.lt_trichotomy a b with h | rfl | h
+  · simp [h]
+  · simp [LawfulPOrd.irrefl]
+  · have h' := LawfulPOrd.asymm h
+    have hne : a ≠ b := fun e => LawfulPOrd.ne_of_lt h e.symm
+    simp [h, h', hne]
+
+instance : LawfulPOrd (α × β) where
+  irrefl p := by
+    cases h : POrd.lt p p with
+    | false => rfl
+    | true =>
+      rcases (lt_prod_iff p p).1 h with h' | ⟨_, h'⟩
+      · rw [LawfulPOrd.irrefl] at h'; exact absurd h' (by simp)
+      · rw [LawfulPOrd.irrefl] at h'; exact absurd h' (by simp)
+  trans p q r h₁ h₂ := by
+    rw [lt_prod_iff] at h₁ h₂ ⊢
+    rcases h₁ with h₁ | ⟨e₁, h₁⟩
+    · rcases h₂ with h₂ | ⟨e₂, h₂⟩
+      · exact .inl (LawfulPOrd.trans _ _ _ h₁ h₂)
+      · exact .inl (e₂ ▸ h₁)
+    · rcases h₂ with h₂ | ⟨e₂, h₂⟩
+      · exact .inl (e₁ ▸ h₂)
+      · exact .inr ⟨e₁.trans e₂, LawfulPOrd.trans _ _ _ h₁ h₂⟩
+  total p q h := by
+    rw [lt_prod_iff, lt_prod_iff]
+    rcases LawfulPOrd.lt_trichotomy p.1 q.1 with h₁ | e₁ | h₁
+    · exact .inl (.inl h₁)
+    · have : p.2 ≠ q.2 := fun e₂ => h (Prod.ext e₁ e₂)
+      rcases LawfulPOrd.total _ _ this with h₂ | h₂
+      · exact .inl (.inr ⟨e₁, h₂⟩)
+      · exact .inr (.inr ⟨e₁.symm, h₂⟩)
+    · exact .inr (.inl h₁)
+
+end prod_list
+
+theorem Flt.tok_inj {f g : Flt} (h : f.tok = g.tok) : f = g := by
+  cases f; cases g; cases h; rfl
+
+instance : LawfulPOrd Sc where
+  irrefl a := by
+    cases a <;> show Sc.lt _ _ = false <;> simp only [Sc.lt] <;>
+      first
+      | exact LawfulPOrd.irrefl (α := Bool) _
+      | exact LawfulPOrd.irrefl (α := Int) _
+      | exact LawfulPOrd.irrefl (α := List Char) _
+      | simp [Sc.tag]
+  trans a b c := by
+    cases a <;> cases b <;> cases c <;>
+      show Sc.lt _ _ = true → Sc.lt _ _ = true → Sc.lt _ _ = true <;>
+      simp only [Sc.lt] <;>
+      first
+      | exact LawfulPOrd.trans (α := Bool) _ _ _
+      | exact LawfulPOrd.trans (α := Int) _ _ _
+      | exact LawfulPOrd.trans (α := List Char) _ _ _
+      | simp [Sc.tag]
+  total a b h := by
+    cases a <;> cases b <;>
+      first
+      | exact absurd rfl h
+      | (show Sc.lt _ _ = true ∨ Sc.lt _ _ = true
+         simp only [Sc.lt]
+         first
+         | exact LawfulPOrd.total (α := Bool) _ _ (fun e => h (by rw [e]))
+         | exact LawfulPOrd.total (α := Int) _ _ (fun e => h (by rw [e]))
+         | exact LawfulPOrd.total (α := List Char) _ _ (fun e => h (by rw [e]))
+         | exact LawfulPOrd.total (α := List Char) _ _ (fun e => h (congrArg Sc.flt (Flt.tok_inj e)))
+         | simp [Sc.tag])
+
+instance : LawfulPOrd Val where
+  irrefl a := by
+    cases a with
+    | sc s => exact LawfulPOrd.irrefl (α := Sc) s
+    | tup l => exact LawfulPOrd.irrefl (α := List Sc) l
+  trans a b c := by
+    cases a <;> cases b <;> cases c <;>
+      show Val.lt _ _ = true → Val.lt _ _ = true → Val.lt _ _ = true <;>
+      simp only [Val.lt] <;>
+      first
+      | exact LawfulPOrd.trans (α := Sc) _ _ _
+      | exact LawfulPOrd.trans (α := List Sc) _ _ _
+      | simp
+  total a b h := by
+    cases a <;> cases b <;>
+      show Val.lt _ _ = true ∨ Val.lt _ _ = true <;>
+      simp only [Val.lt] <;>
+      first
+      | exact LawfulPOrd.total (α := Sc) _ _ (fun e => h (by rw [e]))
+      | exact LawfulPOrd.total (α := List Sc) _ _ (fun e => h (by rw [e]))
+      | simp
+
+/-! ### generic facts about `mergeSort` with a total, transitive, antisymmetric comparison -/
+
+section generic
+variable {α : Type}
+
+/-- two permutations sorted w.r.t. a comparison that is total, transitive and antisymmetric *on the
+elements of the list* are equal -/
+theorem mergeSort_eq_of_perm {le : α → α → Bool} {l₁ l₂ : List α}
+    (htrans : ∀ a b c : α, le a b = true → le b c = true → le a c = true)
+    (htotal : ∀ a b : α, (le a b || le b a) = true)
+    (hanti : ∀ a b : α, a ∈ l₁ → b ∈ l₁ → le a b = true → le b a = true → a = b)
+    (h : l₁.Perm l₂) : l₁.mergeSort le = l₂.mergeSort le := by
+  have p : (l₁.mergeSort le).Perm (l₂.mergeSort le) :=
+    (List.mergeSort_perm l₁ le).trans (h.trans (List.mergeSort_perm l₂ le).symm)
+  refine List.Perm.eq_of_pairwise (le := fun a b => le a b = true) ?_
+    (List.pairwise_mergeSort htrans htotal l₁) (List.pairwise_mergeSort htrans htotal l₂) p
+  intro a b ha hb hab hba
+  have ha' : a ∈ l₁ := List.mem_mergeSort.1 ha
+  have hb' : b ∈ l₁ := h.symm.subset (List.mem_mergeSort.1 hb)
+  exact hanti a b ha' hb' hab hba
+
+/-- a sorted permutation of `l` *is* `mergeSort l` -/
+theorem eq_mergeSort_of_perm_of_pairwise {le : α → α → Bool} {l s : List α}
+    (htrans : ∀ a b c : α, le a b = true → le b c = true → le a c = true)
+    (htotal : ∀ a b : α, (le a b || le b a) = true)
+    (hanti : ∀ a b : α, a ∈ l → b ∈ l → le a b = true → le b a = true → a = b)
+    (hp : s.Perm l) (hs : s.Pairwise (fun a b => le a b = true)) : l.mergeSort le = s := by
+  rw [mergeSort_eq_of_perm htrans htotal hanti hp.symm]
+  exact List.mergeSort_of_pairwise hs
+
+end generic
+
+/-! ### `sorted`, `sortedRev`, `sortedKey` -/
+
+section sorting
+variable {α : Type} [POrd α] [LawfulPOrd α]
+
+private theorem le_trans' (a b c : α) (h₁ : (!POrd.lt b a) = true) (h₂ : (!POrd.lt c b) = true) :
+    (!POrd.lt c a) = true := by
+  simp only [Bool.not_eq_true'] at *
+  exact LawfulPOrd.le_trans h₁ h₂
+
+private theorem le_total' (a b : α) : (!POrd.lt b a || !POrd.lt a b) = true := by
+  cases h : POrd.lt b a with
+  | false => simp
+  | true => simp [LawfulPOrd.asymm h]
+
+private theorem le_antisymm' (a b : α) (h₁ : (!POrd.lt b a) = true) (h₂ : (!POrd.lt a b) = true) : a = b := by
+  simp only [Bool.not_eq_true'] at *
+  exact LawfulPOrd.eq_of_not_lt h₂ h₁
+
+private theorem ge_trans' (a b c : α) (h₁ : (!POrd.lt a b) = true) (h₂ : (!POrd.lt b c) = true) :
+    (!POrd.lt a c) = true := by
+  simp only [Bool.not_eq_true'] at *
+  exact LawfulPOrd.le_trans h₂ h₁
+
 /-- S1: `sorted` depends only on the multiset of its argument -/
-theorem sorted_perm {l₁ l₂ : List α} (h : l₁.Perm l₂) : sorted l₁ = sorted l₂ := sorry
-theorem sorted_perm_self (l : List α) : (sorted l).Perm l := sorry
-theorem sorted_pairwise (l : List α) : (sorted l).Pairwise (fun a b => POrd.lt b a = false) := sorry
-theorem sortedRev_perm {l₁ l₂ : List α} (h : l₁.Perm l₂) : sortedRev l₁ = sortedRev l₂ := sorry
-theorem sortedRev_perm_self (l : List α) : (sortedRev l).Perm l := sorry
+theorem sorted_perm {l₁ l₂ : List α} (h : l₁.Perm l₂) : sorted l₁ = sorted l₂ :=
+  mergeSort_eq_of_perm le_trans' le_total' (fun a b _ _ => le_antisymm' a b) h
+
+omit [LawfulPOrd α] in
+theorem sorted_perm_self (l : List α) : (sorted l).Perm l := List.mergeSort_perm l _
+
+omit [LawfulPOrd α] in
+@[simp] theorem mem_sorted {l : List α} {a : α} : a ∈ sorted l ↔ a ∈ l := List.mem_mergeSort
+
+omit [LawfulPOrd α] in
+@[simp] theorem length_sorted (l : List α) : (sorted l).length = l.length := List.length_mergeSort l
+
+theorem sorted_pairwise (l : List α) : (sorted l).Pairwise (fun a b => POrd.lt b a = false) := by
+  have := List.pairwise_mergeSort (le := fun a b : α => !POrd.lt b a) le_trans' le_total' l
+  simpa only [Bool.not_eq_true', sorted] using this
+
+theorem sortedRev_perm {l₁ l₂ : List α} (h : l₁.Perm l₂) : sortedRev l₁ = sortedRev l₂ :=
+  mergeSort_eq_of_perm ge_trans' (fun a b => le_total' b a) (fun a b _ _ h₁ h₂ => le_antisymm' a b h₂ h₁) h
+
+omit [LawfulPOrd α] in
+theorem sortedRev_perm_self (l : List α) : (sortedRev l).Perm l := List.mergeSort_perm l _
+
+omit [LawfulPOrd α] in
+@[simp] theorem mem_sortedRev {l : List α} {a : α} : a ∈ sortedRev l ↔ a ∈ l := List.mem_mergeSort
+
+omit [LawfulPOrd α] in
+@[simp] theorem length_sortedRev (l : List α) : (sortedRev l).length = l.length := List.length_mergeSort l
+
+theorem sortedRev_pairwise (l : List α) : (sortedRev l).Pairwise (fun a b => POrd.lt a b = false) := by
+  have := List.pairwise_mergeSort (le := fun a b : α => !POrd.lt a b) ge_trans' (fun a b => le_total' b a) l
+  simpa only [Bool.not_eq_true', sortedRev] using this
+
+/-- a weakly ascending permutation of `l` is `sorted l` (characterisation of `sorted`) -/
+theorem sorted_eq_of_perm_of_pairwise {l s : List α} (hp : s.Perm l)
+    (hs : s.Pairwise (fun a b => POrd.lt b a = false)) : sorted l = s := by
+  refine eq_mergeSort_of_perm_of_pairwise le_trans' le_total' (fun a b _ _ => le_antisymm' a b) hp ?_
+  simpa only [Bool.not_eq_true'] using hs
+
+/-- a weakly descending permutation of `l` is `sortedRev l` -/
+theorem sortedRev_eq_of_perm_of_pairwise {l s : List α} (hp : s.Perm l)
+    (hs : s.Pairwise (fun a b => POrd.lt a b = false)) : sortedRev l = s := by
+  refine eq_mergeSort_of_perm_of_pairwise ge_trans' (fun a b => le_total' b a)
+    (fun a b _ _ h₁ h₂ => le_antisymm' a b h₂ h₁) hp ?_
+  simpa only [Bool.not_eq_true'] using hs
+
+/-- sorting a weakly ascending list does nothing -/
+theorem sorted_of_pairwise {l : List α} (h : l.Pairwise (fun a b => POrd.lt b a = false)) : sorted l = l :=
+  sorted_eq_of_perm_of_pairwise (List.Perm.refl l) h
+
+/-- sorting a strictly ascending list does nothing -/
+theorem sorted_of_strict {l : List α} (h : l.Pairwise (fun a b => POrd.lt a b = true)) : sorted l = l :=
+  sorted_of_pairwise (h.imp LawfulPOrd.asymm)
+
+theorem sorted_idem (l : List α) : sorted (sorted l) = sorted l := sorted_of_pairwise (sorted_pairwise l)
+
+/-- because `<` is a strict *total* order (equivalent elements are equal), stability is invisible and
+`sorted(l, reverse=True)` is the reverse of `sorted(l)` -/
+theorem sortedRev_eq_reverse_sorted (l : List α) : sortedRev l = (sorted l).reverse :=
+  sortedRev_eq_of_perm_of_pairwise ((List.reverse_perm _).trans (sorted_perm_self l))
+    (List.pairwise_reverse.2 (sorted_pairwise l))
+
+theorem sorted_eq_reverse_sortedRev (l : List α) : sorted l = (sortedRev l).reverse := by
+  rw [sortedRev_eq_reverse_sorted, List.reverse_reverse]
+
+omit [LawfulPOrd α] in
+theorem sorted_nodup {l : List α} (h : l.Nodup) : (sorted l).Nodup :=
+  (sorted_perm_self l).nodup_iff.2 h
 
 /-- `sorted` of a duplicate-free list is strictly ascending -/
-theorem sorted_strict_of_nodup {l : List α} (h : l.Nodup) : (sorted l).Pairwise (fun a b => POrd.lt a b = true) := sorry
+theorem sorted_strict_of_nodup {l : List α} (h : l.Nodup) : (sorted l).Pairwise (fun a b => POrd.lt a b = true) := by
+  have h₁ := sorted_pairwise l
+  have h₂ : (sorted l).Pairwise (· ≠ ·) := sorted_nodup h
+  refine (h₁.and h₂).imp ?_
+  rintro a b ⟨hle, hne⟩
+  rcases LawfulPOrd.total a b hne with h | h
+  · exact h
+  · rw [hle] at h; exact absurd h (by simp)
 
-variable [DecidableEq α]
+/-- a strictly ascending list is duplicate-free -/
+theorem nodup_of_strict {l : List α} (h : l.Pairwise (fun a b => POrd.lt a b = true)) : l.Nodup :=
+  h.imp (fun hab => LawfulPOrd.ne_of_lt hab)
+
+/-- two strictly ascending lists with the same elements are equal -/
+theorem eq_of_strict_of_mem_iff {l₁ l₂ : List α} (h₁ : l₁.Pairwise (fun a b => POrd.lt a b = true))
+    (h₂ : l₂.Pairwise (fun a b => POrd.lt a b = true)) (h : ∀ x, x ∈ l₁ ↔ x ∈ l₂) : l₁ = l₂ := by
+  have p : l₁.Perm l₂ := (List.perm_ext_iff_of_nodup (nodup_of_strict h₁) (nodup_of_strict h₂)).2 h
+  rw [← sorted_of_strict h₁, ← sorted_of_strict h₂]
+  exact sorted_perm p
+
+/-! `sorted(l, key=f)` -/
+
+variable {ι : Type}
+
+omit [LawfulPOrd α] in
+theorem sortedKey_perm_self (f : ι → α) (l : List ι) : (sortedKey f l).Perm l := List.mergeSort_perm l _
+
+omit [LawfulPOrd α] in
+@[simp] theorem mem_sortedKey {f : ι → α} {l : List ι} {a : ι} : a ∈ sortedKey f l ↔ a ∈ l := List.mem_mergeSort
+
+omit [LawfulPOrd α] in
+@[simp] theorem length_sortedKey (f : ι → α) (l : List ι) : (sortedKey f l).length = l.length :=
+  List.length_mergeSort l
+
+theorem sortedKey_pairwise (f : ι → α) (l : List ι) :
+    (sortedKey f l).Pairwise (fun a b => POrd.lt (f b) (f a) = false) := by
+  have := List.pairwise_mergeSort (le := fun a b : ι => !POrd.lt (f b) (f a))
+    (fun a b c => le_trans' (f a) (f b) (f c)) (fun a b => le_total' (f a) (f b)) l
+  simpa only [Bool.not_eq_true', sortedKey] using this
+
+omit [LawfulPOrd α] in
+/-- the keys of `sorted(l, key=f)` are the sorted keys (no assumption on `f`) -/
+theorem map_sortedKey (f : ι → α) (l : List ι) : (sortedKey f l).map f = sorted (l.map f) :=
+  List.map_mergeSort (fun _ _ _ _ => rfl)
+
+/-- if the key is injective on the list, `sorted(l, key=f)` depends only on the multiset -/
+theorem sortedKey_perm {f : ι → α} {l₁ l₂ : List ι} (hinj : ∀ a ∈ l₁, ∀ b ∈ l₁, f a = f b → a = b)
+    (h : l₁.Perm l₂) : sortedKey f l₁ = sortedKey f l₂ :=
+  mergeSort_eq_of_perm (fun a b c => le_trans' (f a) (f b) (f c)) (fun a b => le_total' (f a) (f b))
+    (fun a b ha hb h₁ h₂ => hinj a ha b hb (le_antisymm' (f a) (f b) h₁ h₂)) h
+
+/-- characterisation of `sorted(l, key=f)` for a key that is injective on the list -/
+theorem sortedKey_eq_of_perm_of_pairwise {f : ι → α} {l s : List ι}
+    (hinj : ∀ a ∈ l, ∀ b ∈ l, f a = f b → a = b) (hp : s.Perm l)
+    (hs : s.Pairwise (fun a b => POrd.lt (f b) (f a) = false)) : sortedKey f l = s := by
+  refine eq_mergeSort_of_perm_of_pairwise (fun a b c => le_trans' (f a) (f b) (f c))
+    (fun a b => le_total' (f a) (f b))
+    (fun a b ha hb h₁ h₂ => hinj a ha b hb (le_antisymm' (f a) (f b) h₁ h₂)) hp ?_
+  simpa only [Bool.not_eq_true'] using hs
+
+/-- with keys that are pairwise distinct on the list, `sorted(l, key=f)` is strictly ascending in the key -/
+theorem sortedKey_strict {f : ι → α} {l : List ι} (hnd : (l.map f).Nodup) :
+    (sortedKey f l).Pairwise (fun a b => POrd.lt (f a) (f b) = true) := by
+  have h := sorted_strict_of_nodup hnd
+  rw [← map_sortedKey, List.pairwise_map] at h
+  exact h
+
+end sorting
+
+/-! ### positions in strictly ascending lists -/
+
+section rank
+variable {α : Type} [POrd α] [LawfulPOrd α] [DecidableEq α]
+
+/-- in a strictly ascending list the position of a member is the number of smaller members -/
+theorem idxOf_eq_countLt_of_strict {s : List α} (hs : s.Pairwise (fun a b => POrd.lt a b = true))
+    {k : α} (hk : k ∈ s) : s.idxOf k = (s.filter (fun y => POrd.lt y k)).length := by
+  induction s with
+  | nil => simp at hk
+  | cons x t ih =>
+    rw [List.pairwise_cons] at hs
+    obtain ⟨hx, ht⟩ := hs
+    by_cases hkx : k = x
+    · subst hkx
+      have : (k :: t).filter (fun y => POrd.lt y k) = [] := by
+        rw [List.filter_eq_nil_iff]
+        intro y hy
+        rcases List.mem_cons.1 hy with rfl | hy
+        · simp [LawfulPOrd.irrefl]
+        · simp [LawfulPOrd.asymm (hx y hy)]
+      rw [this]; simp
+    · have hkt : k ∈ t := by
+        rcases List.mem_cons.1 hk with h | h
+        · exact absurd h hkx
+        · exact h
+      have hxk := hx k hkt
+      rw [List.idxOf_cons_ne _ (Ne.symm hkx), List.filter_cons_of_pos (by simpa using hxk), ih ht hkt]
+      simp
+
+/-- in a strictly ascending list, positions compare like the elements -/
+theorem idxOf_lt_idxOf_iff_of_strict {s : List α} (hs : s.Pairwise (fun a b => POrd.lt a b = true))
+    {a b : α} (ha : a ∈ s) (hb : b ∈ s) : s.idxOf a < s.idxOf b ↔ POrd.lt a b = true := by
+  have key : ∀ a b : α, a ∈ s → b ∈ s → s.idxOf a < s.idxOf b → POrd.lt a b = true := by
+    intro a b ha hb h
+    have hia := List.idxOf_lt_length_iff.2 ha
+    have hib := List.idxOf_lt_length_iff.2 hb
+    have := (List.pairwise_iff_getElem.1 hs) _ _ hia hib h
+    simpa only [List.getElem_idxOf] using this
+  constructor
+  · exact key a b ha hb
+  · intro hab
+    by_contra hlt
+    rcases Nat.lt_or_eq_of_le (Nat.le_of_not_lt hlt) with h | h
+    · have := key b a hb ha h
+      rw [LawfulPOrd.asymm hab] at this; exact absurd this (by simp)
+    · have : b = a := (List.idxOf_inj hb).1 h
+      subst this
+      rw [LawfulPOrd.irrefl] at hab; exact absurd hab (by simp)
+
+theorem idxOf_le_idxOf_iff_of_strict {s : List α} (hs : s.Pairwise (fun a b => POrd.lt a b = true))
+    {a b : α} (ha : a ∈ s) (hb : b ∈ s) : s.idxOf a ≤ s.idxOf b ↔ POrd.lt b a = false := by
+  rw [← Nat.not_lt, idxOf_lt_idxOf_iff_of_strict hs hb ha]
+  simp
+
+/-! ### the rank of a key among the distinct keys -/
 
 /-- the rank used by `partition_molecule_by_attribute`: position of `k` among the sorted distinct keys,
 for an arbitrary iteration order `ord` of the set -/
 def rankIn (keys : List α) (k : α) : Nat := (sorted keys.dedup).idxOf k
+
+theorem sorted_dedup_strict (keys : List α) :
+    (sorted keys.dedup).Pairwise (fun a b => POrd.lt a b = true) :=
+  sorted_strict_of_nodup (List.nodup_dedup keys)
+
+omit [LawfulPOrd α] in
+theorem sorted_dedup_nodup (keys : List α) : (sorted keys.dedup).Nodup := sorted_nodup (List.nodup_dedup keys)
+
+omit [LawfulPOrd α] in
+theorem mem_sorted_dedup {keys : List α} {k : α} : k ∈ sorted keys.dedup ↔ k ∈ keys := by simp
 
 /-- the set's iteration order is irrelevant -/
 theorem sorted_setOrder_eq (keys : List α) (ord : List α) (h : ord.Perm keys.dedup) :
@@ -45,22 +540,273 @@ theorem sorted_setOrder_eq (keys : List α) (ord : List α) (h : ord.Perm keys.d
 
 /-- S2: the rank is the number of distinct smaller keys -/
 theorem rankIn_eq_card (keys : List α) (k : α) (hk : k ∈ keys) :
-    rankIn keys k = ((keys.dedup).filter (fun y => POrd.lt y k)).length := sorry
+    rankIn keys k = ((keys.dedup).filter (fun y => POrd.lt y k)).length := by
+  unfold rankIn
+  rw [idxOf_eq_countLt_of_strict (sorted_dedup_strict keys) (mem_sorted_dedup.2 hk)]
+  exact ((sorted_perm_self keys.dedup).filter _).length_eq
 
 /-- S2: order embedding -/
 theorem rankIn_lt_iff (keys : List α) (a b : α) (ha : a ∈ keys) (hb : b ∈ keys) :
-    rankIn keys a < rankIn keys b ↔ POrd.lt a b = true := sorry
-theorem rankIn_inj (keys : List α) (a b : α) (ha : a ∈ keys) (hb : b ∈ keys) (h : rankIn keys a = rankIn keys b) : a = b := sorry
+    rankIn keys a < rankIn keys b ↔ POrd.lt a b = true :=
+  idxOf_lt_idxOf_iff_of_strict (sorted_dedup_strict keys) (mem_sorted_dedup.2 ha) (mem_sorted_dedup.2 hb)
+
+theorem rankIn_le_iff (keys : List α) (a b : α) (ha : a ∈ keys) (hb : b ∈ keys) :
+    rankIn keys a ≤ rankIn keys b ↔ POrd.lt b a = false :=
+  idxOf_le_idxOf_iff_of_strict (sorted_dedup_strict keys) (mem_sorted_dedup.2 ha) (mem_sorted_dedup.2 hb)
+
+set_option linter.unusedVariables false in
+omit [LawfulPOrd α] in
+theorem rankIn_inj (keys : List α) (a b : α) (ha : a ∈ keys) (hb : b ∈ keys)
+    (h : rankIn keys a = rankIn keys b) : a = b :=
+  (List.idxOf_inj (mem_sorted_dedup.2 ha)).1 h
+
+omit [LawfulPOrd α] in
+theorem rankIn_eq_iff (keys : List α) (a b : α) (ha : a ∈ keys) :
+    rankIn keys a = rankIn keys b ↔ a = b :=
+  List.idxOf_inj (mem_sorted_dedup.2 ha)
+
+omit [LawfulPOrd α] in
 /-- S2: dense: ranks are exactly `0 .. #distinct-1` -/
-theorem rankIn_lt_length (keys : List α) (k : α) (hk : k ∈ keys) : rankIn keys k < keys.dedup.length := sorry
-theorem rankIn_surj (keys : List α) (i : Nat) (hi : i < keys.dedup.length) : ∃ k ∈ keys, rankIn keys k = i := sorry
+theorem rankIn_lt_length (keys : List α) (k : α) (hk : k ∈ keys) : rankIn keys k < keys.dedup.length := by
+  have := List.idxOf_lt_length_iff.2 (mem_sorted_dedup.2 hk)
+  simpa [rankIn] using this
+
+omit [LawfulPOrd α] in
+theorem rankIn_surj (keys : List α) (i : Nat) (hi : i < keys.dedup.length) : ∃ k ∈ keys, rankIn keys k = i := by
+  have hi' : i < (sorted keys.dedup).length := by simpa using hi
+  refine ⟨(sorted keys.dedup)[i], ?_, ?_⟩
+  · exact mem_sorted_dedup.1 (List.getElem_mem hi')
+  · exact (sorted_dedup_nodup keys).idxOf_getElem i hi'
+
+omit [LawfulPOrd α] in
+/-- the key of rank `rankIn keys k` is `k` -/
+theorem getElem?_rankIn (keys : List α) (k : α) (hk : k ∈ keys) :
+    (sorted keys.dedup)[rankIn keys k]? = some k :=
+  List.getElem?_idxOf (mem_sorted_dedup.2 hk)
 
 /-- S3: the rank depends only on the *set* of keys (hence not on how atoms are numbered or listed) -/
 theorem rankIn_congr (keys₁ keys₂ : List α) (h : ∀ x, x ∈ keys₁ ↔ x ∈ keys₂) (k : α) :
-    rankIn keys₁ k = rankIn keys₂ k := sorry
+    rankIn keys₁ k = rankIn keys₂ k := by
+  have p : keys₁.dedup.Perm keys₂.dedup :=
+    (List.perm_ext_iff_of_nodup (List.nodup_dedup _) (List.nodup_dedup _)).2 (by simpa using h)
+  unfold rankIn
+  rw [sorted_perm p]
+
+end rank
+
+/-! ### dict lookups (`Dict.set`, `Dict.ofPairs`)
+
+These live in the namespace `Py.OrderAux` because sibling files (`Spec.GraphLemmas`, `Spec.PartitionLemmas`)
+declare lemmas named `Py.Dict.get?_set` etc. and are imported together with this file. -/
+
+namespace OrderAux
+open Dict
+variable {κ ν : Type} [DecidableEq κ]
+
+theorem lookup_cons_ite (p : κ × ν) (l : List (κ × ν)) (k : κ) :
+    (p :: l).lookup k = if k = p.1 then some p.2 else l.lookup k := by
+  obtain ⟨a, b⟩ := p
+  by_cases h : k = a
+  · subst h; simp
+  · have : (k == a) = false := beq_eq_false_iff_ne.2 h
+    simp [List.lookup_cons, this, h]
+
+theorem lookup_map_replace (l : List (κ × ν)) (k k' : κ) (v : ν) :
+    (l.map (fun p => if p.1 = k then (k, v) else p)).lookup k' =
+      if k' = k then (l.lookup k).map (fun _ => v) else l.lookup k' := by
+  induction l with
+  | nil => simp
+  | cons p l ih =>
+    obtain ⟨a, b⟩ := p
+    by_cases hak : a = k <;> by_cases hk' : k' = k <;> by_cases hk'a : k' = a <;>
+      simp_all [lookup_cons_ite]
+
+@[simp] theorem get?_empty (k : κ) : (Dict.empty : Dict κ ν).get? k = none := rfl
+
+/-- `d[k] = v; d.get(k')` -/
+theorem get?_set (d : Dict κ ν) (k k' : κ) (v : ν) :
+    (d.set k v).get? k' = if k' = k then some v else d.get? k' := by
+  unfold Dict.set
+  split
+  · rename_i hc
+    simp only [contains, get?] at hc
+    simp only [get?, lookup_map_replace]
+    split
+    · obtain ⟨w, hw⟩ := Option.isSome_iff_exists.1 hc
+      simp [hw]
+    · rfl
+  · rename_i hc
+    simp only [contains, get?, Bool.not_eq_true, Option.isSome_eq_false_iff, Option.isNone_iff_eq_none] at hc
+    simp only [get?, List.lookup_append]
+    split
+    · rename_i h; subst h; simp [hc, lookup_cons_ite]
+    · rename_i h; simp [h, lookup_cons_ite]
+
+theorem get?_set_self (d : Dict κ ν) (k : κ) (v : ν) : (d.set k v).get? k = some v := by
+  simp [get?_set]
+
+theorem get?_set_of_ne (d : Dict κ ν) {k k' : κ} (v : ν) (h : k' ≠ k) : (d.set k v).get? k' = d.get? k' := by
+  simp [get?_set, h]
+
+/-- a later assignment wins -/
+theorem get?_foldl_set (l : List (κ × ν)) (d : Dict κ ν) (k : κ) :
+    (l.foldl (fun d p => d.set p.1 p.2) d).get? k = (l.reverse.lookup k).or (d.get? k) := by
+  induction l generalizing d with
+  | nil => simp
+  | cons p l ih =>
+    simp only [List.foldl_cons, ih, get?_set, List.reverse_cons, List.lookup_append, lookup_cons_ite,
+      List.lookup_nil]
+    cases List.lookup k l.reverse <;> by_cases h : k = p.1 <;> simp [h]
+
+theorem get?_ofPairs (l : List (κ × ν)) (k : κ) : (ofPairs l).get? k = l.reverse.lookup k := by
+  simp [ofPairs, get?_foldl_set]
+
+theorem get?_updatePairs (d : Dict κ ν) (l : List (κ × ν)) (k : κ) :
+    (d.updatePairs l).get? k = (l.reverse.lookup k).or (d.get? k) := get?_foldl_set l d k
+
+theorem get?_update (d e : Dict κ ν) (k : κ) :
+    (d.update e).get? k = (e.items.reverse.lookup k).or (d.get? k) := get?_foldl_set e.items d k
+
+theorem lookup_reverse_of_nodup (l : List (κ × ν)) (hnd : (l.map Prod.fst).Nodup) (k : κ) :
+    l.reverse.lookup k = l.lookup k := by
+  induction l with
+  | nil => rfl
+  | cons p l ih =>
+    rw [List.map_cons, List.nodup_cons] at hnd
+    obtain ⟨hp, hl⟩ := hnd
+    rw [List.reverse_cons, List.lookup_append, ih hl]
+    obtain ⟨a, b⟩ := p
+    by_cases h : k = a
+    · subst h
+      have : l.lookup k = none := by
+        rw [List.lookup_eq_none_iff]
+        intro q hq
+        simp only [bne_iff_ne, ne_eq]
+        intro e
+        exact hp (show k ∈ l.map Prod.fst from e ▸ List.mem_map_of_mem (f := Prod.fst) hq)
+      simp [this, lookup_cons_ite]
+    · simp [lookup_cons_ite, h]
+
+/-- with pairwise distinct keys, `dict(pairs)` looks up like the association list -/
+theorem get?_ofPairs_of_nodup (l : List (κ × ν)) (hnd : (l.map Prod.fst).Nodup) (k : κ) :
+    (ofPairs l).get? k = l.lookup k := by
+  rw [get?_ofPairs, lookup_reverse_of_nodup l hnd]
+
+theorem foldl_set_of_nodup (l : List (κ × ν)) (d : Dict κ ν) (hnd : (l.map Prod.fst).Nodup)
+    (hd : ∀ p ∈ l, d.get? p.1 = none) :
+    l.foldl (fun d p => d.set p.1 p.2) d = ⟨d.items ++ l⟩ := by
+  induction l generalizing d with
+  | nil => simp
+  | cons p l ih =>
+    rw [List.map_cons, List.nodup_cons] at hnd
+    obtain ⟨hp, hl⟩ := hnd
+    have h1 : d.set p.1 p.2 = ⟨d.items ++ [p]⟩ := by
+      have := hd p (by simp)
+      simp [Dict.set, Dict.contains, this]
+    rw [List.foldl_cons, h1, ih _ hl]
+    · simp
+    · intro q hq
+      have hq' := hd q (by simp [hq])
+      have hne : q.1 ≠ p.1 := by
+        intro e; exact hp (e ▸ List.mem_map_of_mem (f := Prod.fst) hq)
+      simp only [get?] at hq' ⊢
+      simp [List.lookup_append, hq', hne]
+
+/-- with pairwise distinct keys, `dict(pairs)` is the list of pairs, in order -/
+theorem ofPairs_of_nodup (l : List (κ × ν)) (hnd : (l.map Prod.fst).Nodup) : ofPairs l = ⟨l⟩ := by
+  rw [ofPairs, foldl_set_of_nodup l empty hnd (fun _ _ => rfl)]
+  simp [empty]
+
+end OrderAux
+
+/-! ### `dict(zip(xs, range(len(xs))))` -/
+
+namespace OrderAux
+variable {α : Type} [DecidableEq α]
+
+theorem lookup_zip_idxOf {β : Type} (s : List α) (vs : List β) (hlen : s.length ≤ vs.length) {k : α}
+    (hk : k ∈ s) : (List.zip s vs).lookup k = vs[s.idxOf k]? := by
+  induction s generalizing vs with
+  | nil => simp at hk
+  | cons x t ih =>
+    cases vs with
+    | nil => simp at hlen
+    | cons v vs =>
+      by_cases h : k = x
+      · subst h; simp [lookup_cons_ite]
+      · have hk' : k ∈ t := by
+          rcases List.mem_cons.1 hk with e | e
+          · exact absurd e h
+          · exact e
+        have hlen' : t.length ≤ vs.length := by simpa using hlen
+        rw [List.zip_cons_cons, List.idxOf_cons_ne _ (Ne.symm h)]
+        simp [lookup_cons_ite, h, ih vs hlen' hk']
+
+theorem lookup_zip_of_not_mem {β : Type} (s : List α) (vs : List β) {k : α} (hk : k ∉ s) :
+    (List.zip s vs).lookup k = none := by
+  rw [List.lookup_eq_none_iff]
+  rintro ⟨a, b⟩ hp
+  have := (List.of_mem_zip hp).1
+  simp only [bne_iff_ne, ne_eq]
+  rintro rfl
+  exact hk this
+
+end OrderAux
+
+section rankdict
+variable {α : Type} [DecidableEq α]
+open OrderAux
+
+/-- `dict(zip(s, range(len(s))))` for duplicate-free `s` maps each element to its position -/
+theorem get?_zip_range_of_nodup {s : List α} (hnd : s.Nodup) (k : α) :
+    (Dict.ofPairs (zip s (range (pyLen s)))).get? k =
+      if k ∈ s then some (Int.ofNat (s.idxOf k)) else none := by
+  have hlen : (range (pyLen s)).length = s.length := by simp [range]
+  rw [OrderAux.get?_ofPairs_of_nodup]
+  · unfold zip
+    split
+    · rename_i hk
+      rw [lookup_zip_idxOf _ _ (by omega) hk]
+      have : s.idxOf k < s.length := List.idxOf_lt_length_iff.2 hk
+      simp [range, this]
+    · rename_i hk
+      exact lookup_zip_of_not_mem _ _ hk
+  · unfold zip
+    rw [List.map_fst_zip (by omega)]
+    exact hnd
+
+/-- … and as a value: the dict is the list of `(element, position)` pairs in order -/
+theorem ofPairs_zip_range_of_nodup {s : List α} (hnd : s.Nodup) :
+    Dict.ofPairs (zip s (range (pyLen s))) = ⟨List.zip s (range (pyLen s))⟩ := by
+  have hlen : (range (pyLen s)).length = s.length := by simp [range]
+  apply OrderAux.ofPairs_of_nodup
+  unfold zip
+  rw [List.map_fst_zip (by omega)]
+  exact hnd
+
+variable [POrd α] [LawfulPOrd α]
 
 /-- the dict built by `dict(zip(sorted(set(keys)), range(n)))` maps each key to its rank -/
 theorem rank_dict_lookup (keys ord : List α) (h : ord.Perm keys.dedup) (k : α) (hk : k ∈ keys) :
-    (Dict.ofPairs (zip (sorted ord) (range (pyLen (sorted ord))))).get? k = some (Int.ofNat (rankIn keys k)) := sorry
+    (Dict.ofPairs (zip (sorted ord) (range (pyLen (sorted ord))))).get? k = some (Int.ofNat (rankIn keys k)) := by
+  rw [sorted_perm h, get?_zip_range_of_nodup (sorted_dedup_nodup keys), if_pos (mem_sorted_dedup.2 hk)]
+  rfl
+
+/-- keys outside the set are absent from the rank dict -/
+theorem rank_dict_lookup_none (keys ord : List α) (h : ord.Perm keys.dedup) (k : α) (hk : k ∉ keys) :
+    (Dict.ofPairs (zip (sorted ord) (range (pyLen (sorted ord))))).get? k = none := by
+  rw [sorted_perm h, get?_zip_range_of_nodup (sorted_dedup_nodup keys),
+    if_neg (fun hm => hk (mem_sorted_dedup.1 hm))]
+
+end rankdict
 
 end Py
+
+#print axioms Py.sorted_perm
+#print axioms Py.rankIn_eq_card
+#print axioms Py.rankIn_congr
+#print axioms Py.rank_dict_lookup
+#print axioms Py.sortedRev_eq_reverse_sorted
+#print axioms Py.sortedKey_perm
+#print axioms Py.OrderAux.get?_ofPairs
+#print axioms Py.instLawfulPOrdVal
